@@ -72,6 +72,28 @@ pub struct ReadFault {
     pub sticky: bool,
 }
 
+/// Is the device's own error object still reachable from `e` — as its payload or further down the payload's source chain?
+pub fn carries_injected(e: &io::Error) -> bool {
+    let mut cur: Option<&(dyn std::error::Error + 'static)> = e.get_ref().map(|x| x as &(dyn std::error::Error + 'static));
+    let mut depth = 0;
+    while let Some(c) = cur {
+        if c.is::<Injected>() {
+            return true;
+        }
+        if let Some(io) = c.downcast_ref::<io::Error>() {
+            if carries_injected(io) {
+                return true;
+            }
+        }
+        depth += 1;
+        if depth > 32 {
+            break;
+        }
+        cur = c.source();
+    }
+    false
+}
+
 /// Marker payload of injected errors, so a wrapper that preserves the kind but drops the payload is visible in statistics.
 #[derive(Debug)]
 pub struct Injected(pub u64);
